@@ -467,7 +467,7 @@ func c20Run(c *Ctx) {
 	gen(nil)
 	c.Bound("clear_sequence_length", fmt.Sprint(maxLen))
 	c.Bound("callbacks", "0..2")
-	seen := map[string]bool{}
+	nstates := 0
 	for _, carrier := range carriers {
 		kws := c20Keywords(carrier)
 		// pointer-valued keywords: quick explores {absent,zero} and {absent,non-zero} patterns plus
@@ -477,9 +477,13 @@ func c20Run(c *Ctx) {
 			patterns = [][]int{{0, 1}, {0, 2}}
 		}
 		c.Bound("value_domain_"+carrier, fmt.Sprint(patterns))
-		for _, pat := range patterns {
+		for pi, pat := range patterns {
 			idx := make([]int, len(kws))
 			for {
+				nstates++
+				if nstates%4096 == 0 && c.Expired() {
+					return
+				}
 				st := c20State{}
 				for i, k := range kws {
 					d := c20Domain(k)
@@ -491,12 +495,18 @@ func c20Run(c *Ctx) {
 						st[k] = v
 					}
 				}
-				key := carrier + canonJSON(st)
-				if !seen[key] {
-					seen[key] = true
-					if c.Mine() {
-						c20State1(c, carrier, st, seqs)
+				// the second value pattern repeats the states in which no three-valued keyword is present
+				dup := false
+				if pi > 0 {
+					dup = true
+					for _, k := range kws {
+						if c20Domain(k) == 3 && st[k] != 0 {
+							dup = false
+						}
 					}
+				}
+				if !dup && c.Mine() {
+					c20State1(c, carrier, st, seqs)
 				}
 				// next
 				i := 0
